@@ -38,6 +38,12 @@ func execLine(line string) string {
 			return execGen15(t[1:])
 		case "rpc":
 			return execRPC(t[1:])
+		case "rpcq":
+			// the outbound half: the same scripted Conn, no bootstrap capability of its own (Model.RpcQ's domain)
+			if len(t) != 3 || t[1] != "script" {
+				return "bad-op"
+			}
+			return execRPCScript(t[2], false)
 		case "server":
 			return execServer(t[1:])
 		case "promise":
